@@ -338,6 +338,41 @@ func init() {
 					}
 				}
 			}
+			// outage spanning the whole request: EVERY Redis command fails (restart answering LOADING, network outage),
+			// then the store comes back with its contents intact
+			if redis {
+				for _, sc := range storeScenarios(u) {
+					rs, b := sc.setup(e)
+					e.redisOutage.Store(true)
+					v, real := e.serveCase(rs, nil, "redisoutage:"+sc.name)
+					e.redisOutage.Store(false)
+					if v == nil {
+						continue
+					}
+					c.casen("c13o|"+sc.name, sc.name+" during a Redis outage => "+real)
+					c.count("c13:outage")
+					input := map[string]interface{}{"scenario": sc.name, "fault": "every Redis command fails during the request; the store is healthy again afterwards", "response": real}
+					if len(v.Hits) > 0 && sc.name != "unauth-signin-page" {
+						c.violation("C13", "request forwarded upstream as authenticated during a store outage", input)
+					}
+					if hasSessionSet(v, e.opts.Cookie.Name) {
+						c.violation("C13", "session cookie handed out during a store outage (the session cannot have been persisted)", input)
+					}
+					switch sc.name {
+					case "signout":
+						after := e.do(reqSpec{Target: "/app/after-outage", Cookie: b.cookieHeader()})
+						if v.Status == 302 && len(after.Hits) > 0 {
+							c.violation("C13", "sign-out answered with the success redirect during a store outage; the stored session is still loadable afterwards", input)
+							c.violation("C11", "sign-out answered with the success redirect although the stored session could not be removed (store outage); the pre-sign-out cookie is authenticated again", input)
+						}
+					case "readiness":
+						if v.Status == 200 {
+							c.violation("C13", "readiness endpoint reports ready during a store outage", input)
+						}
+					}
+					e.mr.FlushAll()
+				}
+			}
 			// readiness against a store that accepts the connection but never answers
 			{
 				rs := reqSpec{Target: "/ready"}
@@ -436,7 +471,7 @@ func init() {
 				e.close()
 			}
 		}
-		c.close([]string{"c13:faulted", "c13:no-fault", "serve:storefault:refresh", "serve:storedata:trunc5", "kind:notReady", "kind:errorPage", "redisfault:hit", "c13:sweep:bitflip", "c13:sweep:cut"})
+		c.close([]string{"c13:faulted", "c13:no-fault", "serve:storefault:refresh", "serve:storedata:trunc5", "kind:notReady", "kind:errorPage", "redisfault:hit", "c13:sweep:bitflip", "c13:sweep:cut", "c13:outage"})
 	})
 
 	registerSuite("idpfaults", func(c *suiteCtx) {
